@@ -1,4 +1,5 @@
 import AsherahVerif.Proofs.KeyRace
+import AsherahVerif.Proofs.ExtraKeyRace
 /-
 C14 — racing key creators converge on persisted keys; the metastore is never overwritten.
 
@@ -86,5 +87,109 @@ example :
       [.done ⟨5, (0, 1), 5⟩, .done ⟨5, (0, 1), 5⟩] := by decide
 
 example : WF [] := by intro r h; simp at h
+
+/-! ### convergence (strengthening) -/
+
+/-- **the primary key (kid, created) stays unique**: every step preserves uniqueness (an insert
+that would duplicate a key is refused), hence every reachable store has unique keys. -/
+theorem store_keys_unique (p : Policy) (store : List Row) (n : Nat) (hu : UniqueKeys store) (sched : List Nat) :
+    UniqueKeys (run p (init store n) sched).store :=
+  run_uniq p (init store n) hu sched
+
+theorem store_keys_unique_step (p : Policy) (st st' : St) (i : Nat) (hu : UniqueKeys st.store)
+    (hs : step p st i = some st') : UniqueKeys st'.store :=
+  step_uniq p st st' i hu hs
+
+/-- no valid intermediate key at the start of the race. -/
+def NoValidIK (p : Policy) (store : List Row) : Prop :=
+  match latest store .ik with | none => True | some r => invalid p r = true
+
+/-- no intermediate key row carries a creation stamp later than the one the racers will use
+(no row "from the future"; see `converge_needs_no_future_rows_counterexample`). -/
+def NoFutureIK (p : Policy) (store : List Row) : Prop :=
+  ∀ r, r ∈ store → r.kid = .ik → r.created ≤ stamp p
+
+/-- **racing creators converge on ONE stored intermediate key**: starting from a store with unique
+keys, no IK row from the future and no valid IK, under ANY schedule and for ANY number of
+processes, any two processes that have finished used the same intermediate key (same creation
+stamp — the racers' stamp — and same key material), namely the stored row of that stamp. -/
+theorem converge (p : Policy) (store : List Row) (n : Nat) (hu : UniqueKeys store)
+    (hfut : NoFutureIK p store) (hno : NoValidIK p store) (sched : List Nat)
+    (i j : Nat) (ui uj : Used)
+    (hi : (run p (init store n) sched).procs[i]? = some (.done ui))
+    (hj : (run p (init store n) sched).procs[j]? = some (.done uj)) :
+    ui.ikCreated = uj.ikCreated ∧ ui.ikMat = uj.ikMat ∧ ui.ikCreated = stamp p ∧
+    ∃ r, r ∈ (run p (init store n) sched).store ∧ r.kid = .ik ∧ r.created = stamp p ∧ r.mat = ui.ikMat := by
+  have h := crun_inv p store _ hno (cinv_init p store n hfut) sched
+  have hU := run_uniq p (init store n) hu sched
+  obtain ⟨ri, hri, a1, a2, a3, a4⟩ := h.procs i _ hi
+  obtain ⟨rj, hrj, b1, b2, b3, b4⟩ := h.procs j _ hj
+  have e : ri = rj := uniq_inj hU hri hrj (a1.trans b1.symm) (a2.trans b2.symm)
+  exact ⟨a3.trans b3.symm, by rw [a4, b4, e], a3, ri, hri, a1, a2, a4.symm⟩
+
+/-- the schedule ran every process to completion. -/
+def complete (p : Policy) (st : St) (sched : List Nat) : Prop := KeyRace.complete (run p st sched)
+
+/-- `converge` for completed races: there is ONE intermediate key that every process ended with. -/
+theorem converge_complete (p : Policy) (store : List Row) (n : Nat) (hu : UniqueKeys store)
+    (hfut : NoFutureIK p store) (hno : NoValidIK p store) (sched : List Nat)
+    (hc : complete p (init store n) sched) :
+    ∃ ik : Int × (Nat × Nat), ∀ (i : Nat) (pc : Pc), (run p (init store n) sched).procs[i]? = some pc →
+      ∃ u, pc = .done u ∧ (u.ikCreated, u.ikMat) = ik := by
+  cases h0 : (run p (init store n) sched).procs[0]? with
+  | none =>
+    refine ⟨(0, (0, 0)), ?_⟩
+    intro i pc hi
+    exfalso
+    have hlen : (run p (init store n) sched).procs.length ≤ 0 := by
+      apply Classical.byContradiction; intro hlt
+      rw [List.getElem?_eq_none_iff] at h0; omega
+    have := (List.getElem?_eq_some_iff.mp hi).1
+    omega
+  | some pc0 =>
+    obtain ⟨u0, hu0⟩ := hc 0 pc0 h0
+    refine ⟨(u0.ikCreated, u0.ikMat), ?_⟩
+    intro i pc hi
+    obtain ⟨u, hpc⟩ := hc i pc hi
+    refine ⟨u, hpc, ?_⟩
+    rw [hpc] at hi; rw [hu0] at h0
+    have := converge p store n hu hfut hno sched i 0 u u0 hi h0
+    rw [this.1, this.2.1]
+
+/-- **completion**: any schedule that gives each of the N processes at least 8 turns runs every
+process to completion (no process fails, none is left unfinished) — so `complete` is satisfied by
+every fair-enough schedule, e.g. 8 rounds of round-robin. -/
+theorem fair_schedule_completes (p : Policy) (store : List Row) (n : Nat) (hw : WF store) (sched : List Nat)
+    (hfair : ∀ i, i < n → 8 ≤ sched.count i) : complete p (init store n) sched :=
+  fair_complete p store n hw sched hfair
+
+/-- `NoFutureIK` is necessary: with a REVOKED intermediate key whose creation stamp lies in the
+future (clock skew between hosts), the winner of the insert uses its new key while the loser's
+`mustLoadLatest` adopts the revoked future key without a validity check — the two processes end
+with different intermediate keys. -/
+theorem converge_needs_no_future_rows_counterexample :
+    let p : Policy := { now := 5000000000, expireAfter := 600000000000, precision := 1000000000 }
+    let store : List Row := [{ kid := .sk, created := 1, revoked := false, mat := (9, 0), parent := 0 },
+                             { kid := .ik, created := 100, revoked := true, mat := (9, 1), parent := 1 }]
+    NoValidIK p store ∧ UniqueKeys store ∧
+    (run p (init store 2) [0, 0, 0, 1, 1, 1, 1]).procs = [.done ⟨5, (0, 0), 1⟩, .done ⟨100, (9, 1), 1⟩] := by
+  intro p store
+  refine ⟨?_, ?_, by decide⟩
+  · have : latest store .ik = some { kid := .ik, created := 100, revoked := true, mat := (9, 1), parent := 1 } := by decide
+    unfold NoValidIK; rw [this]; decide
+  · unfold UniqueKeys; decide
+
+/-- non-vacuity: the hypotheses of `converge` hold for the cold store and for a store whose only
+IK is expired; three racers from a cold store converge under a fair schedule. -/
+example : UniqueKeys [] ∧ NoFutureIK ⟨5000000000, 600000000000, 1000000000⟩ [] ∧
+    NoValidIK ⟨5000000000, 600000000000, 1000000000⟩ [] := by
+  refine ⟨(by unfold UniqueKeys; decide), (fun r h => nomatch h), ?_⟩
+  have : latest [] .ik = none := by decide
+  unfold NoValidIK; rw [this]; trivial
+example :
+    let p : Policy := { now := 5000000000, expireAfter := 600000000000, precision := 1000000000 }
+    (run p (init [] 3) [0, 1, 2, 0, 1, 2, 0, 1, 2, 0, 1, 2, 0, 1, 2, 0, 1, 2, 0, 1, 2, 0, 1, 2]).procs.map
+      (fun pc => match pc with | .done u => some (u.ikCreated, u.ikMat) | _ => none) =
+      [some (5, (0, 1)), some (5, (0, 1)), some (5, (0, 1))] := by decide
 
 end AsherahVerif.Props.C14
